@@ -41,19 +41,19 @@ ASSUMPTIONS = [
     "the known finding single-shot-peek is matched counterfactually: same bytes accepted under whole delivery and under the same schedule with only its first chunk enlarged",
 ]
 EXPECTED_PROBES = ["neutral-name-sniffed", "stdin-read", "first-chunk-inside-magic", "one-byte-delivery", "two-writers-open", "garbage-refused", "avro-cell", "independent-decompressor-ok",
-                   "scheme-stdin", "foreign-producer"]  # fmt: skip
+                   "scheme-stdin", "foreign-producer", "closed-without-flush"]  # fmt: skip
 
 CODECS = ["none", "gz", "bz2", "lz4", "zst"]
 EXT = {"none": "", "gz": ".gz", "bz2": ".bz2", "lz4": ".lz4", "zst": ".zst"}
 MAGIC = {"gz": b"\x1f\x8b", "bz2": b"BZh", "lz4": b"\x04\x22\x4d\x18", "zst": b"\x28\xb5\x2f\xfd"}
-NAMINGS = ["ext-path", "neutral-path", "bytesio", "bufreader", "rawobj", "stdin-dash", "stdin-none", "scheme-stdin", "bufreader-small", "stdin-nopeek", "bytesio-offset", "bufreader-offset", "ext-path-after-selector"]
+NAMINGS = ["ext-path", "neutral-path", "bytesio", "bufreader", "rawobj", "stdin-dash", "stdin-none", "scheme-stdin", "bufreader-small", "stdin-nopeek", "bytesio-offset", "bufreader-offset", "ext-path-after-selector", "rawobj-seekable"]
 NEED_FIRST = {"gz": 2, "bz2": 3, "lz4": 4, "zst": 4}
 
 STREAM_TYPES = ["string", "varint", "uint32", "boolean", "float", "bytes", "datetime", "string[]", "path", "net.ipaddress"]
 
 
 def budget(tier):
-    return 30000 if tier == "quick" else 200000
+    return 20000 if tier == "quick" else 200000
 
 
 def wall_cap(tier):
@@ -138,12 +138,12 @@ def generate(rng, tier, index):
     # uncompressed container and the format's own compressor (called directly) does the rest
     producer = "foreign" if (not two and rng.random() < 0.35) else "library"
     return {"container": container, "codec": codec, "writers": writers, "pool": pool, "ops": ops, "reads": reads, "garbage": garbage,
-            "read_buffer_size": rng.choice([8192, 8192, 64, 32]), "producer": producer}  # fmt: skip
+            "read_buffer_size": rng.choice([8192, 8192, 64, 32]), "producer": producer, "closing": rng.choice(["exit", "exit", "exit", "close"])}  # fmt: skip
 
 
 def gen_garbage(rng):
     kind = rng.choice(["empty", "text", "record-text", "magic-gz", "magic-bz2", "magic-lz4", "magic-zst", "magic-avro", "random", "shifted-header", "header-in-text", "compressed-garbage"])
-    return {"kind": kind, "seed": rng.randrange(1 << 30), "naming": rng.choice(["bytesio", "neutral-path", "bufreader", "stdin-dash", "ext-path"]), "codec": rng.choice(CODECS)}
+    return {"kind": kind, "seed": rng.randrange(1 << 30), "naming": rng.choice(["bytesio", "neutral-path", "bufreader", "stdin-dash", "ext-path", "rawobj", "rawobj-seekable"]), "codec": rng.choice(CODECS)}
 
 
 def make_garbage(g, real_stream_plain):
@@ -277,6 +277,9 @@ def do_read(w, plan, naming, delivery, data, container, codec, tag):
         elif naming == "rawobj":
             raw = w.new_raw("rb", data, hp, label=tag, seekable=False)
             rd = RecordReader(fileobj=raw)
+        elif naming == "rawobj-seekable":
+            raw = w.new_raw("rb", data, hp, label=tag, seekable=True)  # e.g. open(path, "rb", buffering=0) on a slow device
+            rd = RecordReader(fileobj=raw)
         elif naming == "stdin-nopeek":
             w.set_stdin_nopeek(data, hp)
             w.probe("stdin-read")
@@ -351,9 +354,14 @@ def execute(plan, keep_log=False):
                 written[op["w"]].append(obs_record(rec))
             else:
                 wr.flush()
+        plain_close = plan.get("closing") == "close"
         for wid in sorted(writers):
             wr = writers[wid][0]
-            wr.__exit__(None, None, None)
+            if plain_close:
+                wr.close()  # no flush: whatever the codec buffered must still end up in a complete file
+                w.probe("closed-without-flush")
+            else:
+                wr.__exit__(None, None, None)
         # ---- clause 1: leading bytes + independent decompressor -------------------------------------
         files = {}
         if foreign:
@@ -372,6 +380,11 @@ def execute(plan, keep_log=False):
             except Exception as e:  # noqa: BLE001
                 add(_viol("C11.written-codec", "independent %s decompressor rejects %s: %s: %s" % (c, path, type(e).__name__, short(str(e), 100))))
                 continue
+            if plain_close and not written[wid]:
+                # a writer closed without flush and without records leaves no container header (C17's known finding);
+                # here only the codec layer is judged: the independent decompressor accepted the file
+                w.probe("independent-decompressor-ok")
+                continue
             got, outcome, cls, stage = do_read(w, plan, "bytesio", {"sizes": [], "tail": "whole"}, plain, container, "none", "plain-" + wid)
             evals += 1
             if outcome != "ok" or got != written[wid]:
@@ -382,6 +395,8 @@ def execute(plan, keep_log=False):
         # ---- clause 2: every naming, delivery must not matter ---------------------------------------
         data, c = files["w0"]
         want = written["w0"]
+        if plain_close and not want:
+            plan = dict(plan, reads=[])  # nothing readable was promised for this file
         want_cls = "AvroReader" if container == "avro" else "StreamReader"
         plain0 = None
         try:
@@ -390,7 +405,7 @@ def execute(plan, keep_log=False):
             plain0 = b""
         for ri, rd in enumerate(plan["reads"]):
             naming, delivery = rd["naming"], rd["delivery"]
-            deliv = delivery if naming in ("bufreader", "bufreader-small", "rawobj", "stdin-dash", "stdin-none", "scheme-stdin", "stdin-nopeek") else {"sizes": [], "tail": "whole", "kind": "whole"}
+            deliv = delivery if naming in ("bufreader", "bufreader-small", "rawobj", "stdin-dash", "stdin-none", "scheme-stdin", "stdin-nopeek", "rawobj-seekable") else {"sizes": [], "tail": "whole", "kind": "whole"}
             got, outcome, cls, stage = do_read(w, plan, naming, deliv, data, container, c, "r%d" % ri)
             evals += 1
             if naming == "neutral-path" and outcome == "ok":
@@ -450,8 +465,14 @@ def execute(plan, keep_log=False):
             evals += 1
             w.log("garbage", g["kind"], naming, "->", "ok" if outcome == "ok" else "raise", len(got))
             w.state("garbage", g["kind"], naming, "ok" if outcome == "ok" else "raise")
+            if outcome != "ok":
+                w.stats["garbage-exc:" + outcome] += 1
             has_magic = refcodec.MAGIC in gdata
-            if got:
+            if outcome in ("AttributeError", "NameError", "UnboundLocalError", "AssertionError", "ImportError", "NotImplementedError"):
+                # refused, but not "with an adapter-not-found or format error": the code fell over instead of deciding
+                add(_viol("C11.garbage-wrong-error", "%s garbage (%d bytes) via %s was not refused with an adapter-not-found or format error but made the library raise %s" % (
+                    g["kind"], len(gdata), naming, outcome), {"kind": g["kind"], "exc": outcome}))  # fmt: skip
+            elif got:
                 add(_viol("C11.garbage-accepted", "%s garbage (%d bytes) via %s was misread as %d record(s): %s" % (g["kind"], len(gdata), naming, len(got), short(got[0], 120)), {"kind": g["kind"]}))
             elif outcome == "ok" and (not has_magic) and g["kind"] not in ("empty",):
                 add(_viol("C11.garbage-accepted", "%s garbage (%d bytes, no record stream magic in it) via %s was accepted as an empty source" % (g["kind"], len(gdata), naming), {"kind": g["kind"]}))
